@@ -516,6 +516,89 @@ def _unsigned_origin(t):
     return t is not None and t['t'].get('c') == 'int' and not t['t'].get('signed')
 
 
+def _guard_witness_step(g, call):
+    """E-STEP fallback: the predicate's body is evaluated on witness states of a 3-cell axis (member arrays indexed by a parameter are one generic axis; calls with no value in the abstraction are no-ops)."""
+    from .. import mini
+    from .C20 import deep_unwrap
+    ints = [p_['name'] for p_ in g['params'] if (p_.get('t') or {}).get('c') == 'int' and not (p_.get('t') or {}).get('ref')]
+    consts = {}
+    for a_, p_ in zip(call.get('args', []), g['params']):
+        cv_ = const_value(strip_casts(a_))
+        if isinstance(cv_, int) and not isinstance(cv_, bool):
+            consts[p_['name']] = cv_
+    free = [n_ for n_ in ints if n_ not in consts]
+    if len(free) != 1:
+        return None
+    for d in (3, -3, 4, -5, 1, -1, 2):
+        st = mini.Step(deep_unwrap, index_vars=set(consts))
+        st.fallback = lambda t, env: 0 if isinstance(t[0], str) and t[0].split('::')[-1].lstrip('.') in ('setValue', 'wrapOffset_', 'fill') else NotImplemented
+        env = dict(consts)
+        env[free[0]] = d
+        for fld_ in ('this.numberOfCellsAlongAxes_', 'numberOfCellsAlongAxes_'):
+            env[fld_] = 3
+        for fld_ in ('this.numberOfCellsAlongAxesMinusOne_', 'numberOfCellsAlongAxesMinusOne_'):
+            env[fld_] = 2
+        for fld_ in ('this.indexOffsetsAlongAxes_', 'indexOffsetsAlongAxes_'):
+            env[fld_] = 1
+        for p_ in g['params']:
+            env.setdefault(p_['name'], 0)
+        try:
+            r_ = st.call(g['body'], env)
+        except mini.Unsupported:
+            return None
+        if r_ is True or r_ == 1:
+            return 'for %s = %d on an axis of 3 cells' % (free[0], d)
+    return None
+
+
+def _guard_witness(fx, cond):
+    """A satisfying assignment (text) of a guard that is one call of an in-repository predicate (or its negation handled by the reader): the callee is read path by path (E-STATE) and a small-integer
+    assignment of its free quantities satisfying the conditions of a path that returns true is searched.  None when nothing could be established."""
+    import itertools
+    c = strip_casts(cond)
+    if c.get('k') not in ('Call', 'MCall'):
+        return None
+    key = c.get('fk') or c.get('fn')
+    cands = [g for g in fx.functions.values() if g.get('body') and (g['q'] == key or g.get('key') == key or g['name'] == (c.get('m') or '').split('::')[-1])]
+    cands = [g for g in cands if len(g['params']) == len(c.get('args', []))]
+    if len({g['name'] for g in cands}) != 1:
+        return None
+    args = []
+    for a_, p_ in zip(c.get('args', []), cands[0]['params']):
+        cv_ = const_value(strip_casts(a_))
+        args.append(sp.Integer(cv_) if isinstance(cv_, int) and not isinstance(cv_, bool) else sp.Symbol('arg:' + p_['name'], **({'integer': True} if (p_.get('t') or {}).get('c') == 'int' else {'real': True})))
+    try:
+        paths = sym.Reader(fx).run(cands[0], args=args)
+    except sym.Unsupported:
+        return _guard_witness_step(cands[0], c)
+    for st in paths:
+        if st.ret not in (1, sp.true, sp.Integer(1), True):
+            continue
+        rels = []
+        for cc in st.cond:
+            if not isinstance(cc[1], sp.Basic):
+                rels = None
+                break
+            rels.append(cc[1] if cc[2] else sp.Not(cc[1]))
+        if rels is None:
+            continue
+        syms_ = sorted({y for r_ in rels for y in r_.free_symbols}, key=lambda y: y.name)
+        if len(syms_) > 4:
+            continue
+        for vals in itertools.product((3, 1, 2, -3, 4, -1, 0), repeat=len(syms_)):
+            sub = dict(zip(syms_, vals))
+            if any('ffset' in y.name and v == 0 for y, v in sub.items()):
+                continue
+            try:
+                tv = [alg.interpret(r_.subs(sub)) if hasattr(alg, 'interpret') else r_.subs(sub) for r_ in rels]
+                tv = [sp.simplify(t_) for t_ in tv]
+            except Exception:
+                break
+            if all(t_ == sp.true for t_ in tv):
+                return 'for ' + ', '.join('%s = %s' % (y.name.replace('arg:', ''), v) for y, v in sub.items())
+    return None
+
+
 def check_block(fx, R, C, cname, f, k, dim, blk):
     inst = '%s::translate:axis%d' % (cname, k)
     nk = sp.Symbol('numberOfCellsAlongAxes_[%d]' % k, integer=True)
@@ -580,6 +663,23 @@ def check_block(fx, R, C, cname, f, k, dim, blk):
             return
         if s['k'] == 'Null':
             return
+        # an early exit of translate() from within the phase of an axis that is not the last one: the phases of the later axes (their offset accumulation and their blanking) are skipped
+        if s['k'] == 'If' and k < dim - 1 and any(x.get('k') == 'Return' for x in walk(s.get('t'))) and s.get('e') is None:
+            later = False
+            for x in walk(s['c']):
+                if x.get('k') == 'Ref':
+                    try:
+                        v_ = C.ev(x)
+                    except Exception:
+                        continue
+                    if isinstance(v_, sp.Symbol) and v_.name.startswith('indexOffset[') and int(v_.name[12:-1]) > k:
+                        later = True
+            wit = None if later else _guard_witness(fx, s['c'])
+            if wit:
+                R.violated('O3', '%s::translate:early-return' % cname, 'translate() returns from within the phase of axis %d under `%s`, a condition that does not involve the offsets of the later axes and that holds e.g. %s: '
+                           'for a translation that also has a non-zero component along axis %d the phases of the later axes are skipped - their index offsets are not accumulated (the reported offset is then '
+                           'not the accumulated offset modulo the grid size, for good)' % (k, pp(s['c'])[:120], wit, k + 1), fx.rel(s['loc']), 'E-STATE')
+                return
         R.undecided('O3', inst, 'statement not recognised in an axis block: %s' % fx.rel(s['loc']))
 
     def visit_body(s, loops, ev):
